@@ -31,8 +31,9 @@
 (*                                                                         *)
 (* TLC, on a rational model (p_i in PVals, m_i in MVals, density in DVals, *)
 (* volume in VVals, 1 Da = 1/7 g): the obligations hold of the ideal; the  *)
-(* machine satisfies them except under the named deviations; every named   *)
-(* mutation of the machine that changes an observable breaks one.          *)
+(* machine satisfies them except under the named deviations; whatever the  *)
+(* machine or a named mutation of it reports that differs from the ideal   *)
+(* breaks an obligation.                                                   *)
 (* Units enter as exact powers of ten.                                     *)
 (***************************************************************************)
 EXTENDS MatTerms, FiniteSets, Json
@@ -210,20 +211,27 @@ Record == [kind |-> sc.kind, cls |-> sc.cls, mode |-> sc.mode, k |-> K, given |-
            objects |-> Objects(sc, K), obl |-> Obligations(sc, K), tags |-> Tags(sc, K, Ps),
            machine_raises |-> ScRaises(ScVals(sc, Ps, Ms, QI(dv[1]), QI(dv[2]), Mach5))]
 
-Sound ==
+OblNow == Obligations(sc, K)
+DNow == QI(dv[1])
+VNow == QI(dv[2])
+WIdeal == ScVals(sc, Ps, Ms, DNow, VNow, Ideal5)
+WMach  == ScVals(sc, Ps, Ms, DNow, VNow, Mach5)
+\* the obligations are theorems of the ideal
+SoundIdeal   == sc # NoSc => AllHoldQ(OblNow, ScEnv(sc, Ps, Ms, DNow, VNow, WIdeal))
+\* the machine refines, up to the known deviations
+SoundMachine == sc # NoSc => \/ DevTags(sc, Ps) \cap KnownDevs # {}
+                              \/ (~ScRaises(WMach) /\ AllHoldQ(OblNow, ScEnv(sc, Ps, Ms, DNow, VNow, WMach)))
+\* The obligations pin the observables down: whatever the machine or one of its named mutations reports, if it is
+\* not what the ideal reports then some obligation fails (so the obligations are not vacuous, and a coincidence of
+\* the model - a mutation that happens to compute the ideal values - is not held against them).
+Complete ==
   sc # NoSc =>
-    LET os == Obligations(sc, K)
-        d  == QI(dv[1])   v == QI(dv[2])
-        wi == ScVals(sc, Ps, Ms, d, v, Ideal5)
-        wm == ScVals(sc, Ps, Ms, d, v, Mach5)
-        excused == DevTags(sc, Ps) \cap KnownDevs # {}
-    IN
-    /\ AllHoldQ(os, ScEnv(sc, Ps, Ms, d, v, wi))                                  \* theorems of the ideal
-    /\ excused \/ (~ScRaises(wm) /\ AllHoldQ(os, ScEnv(sc, Ps, Ms, d, v, wm)))    \* the machine refines, up to the known deviations
-    /\ \A mu \in Mutants :
-          LET MutF(o, ps, ms, dd, vv) == Machine(o, ps, ms, dd, vv, mu)
-              wx == ScVals(sc, Ps, Ms, d, v, MutF)
-          IN  (~ScRaises(wm) /\ ~ScRaises(wx) /\ wx # wm) => ~AllHoldQ(os, ScEnv(sc, Ps, Ms, d, v, wx))
-    /\ (Emit /\ dv = <<CHOOSE x \in DVals : TRUE, CHOOSE x \in VVals : TRUE>>
-             /\ \A i \in 1..K : comps[i].m = ((i - 1) % Cardinality(MVals)) + 1) => PrintT(ToJson(Record))
+    \A mu \in Mutants \cup {""} :
+        LET MutF(o, ps, ms, dd, vv) == Machine(o, ps, ms, dd, vv, mu)
+            wx == ScVals(sc, Ps, Ms, DNow, VNow, MutF)
+        IN  (~ScRaises(wx) /\ wx # WIdeal) => ~AllHoldQ(OblNow, ScEnv(sc, Ps, Ms, DNow, VNow, wx))
+EmitRec ==
+  (sc # NoSc /\ Emit /\ dv = <<CHOOSE x \in DVals : TRUE, CHOOSE x \in VVals : TRUE>>
+          /\ \A i \in 1..K : comps[i].m = ((i - 1) % Cardinality(MVals)) + 1) => PrintT(ToJson(Record))
+Sound == SoundIdeal /\ SoundMachine /\ Complete /\ EmitRec
 =============================================================================
